@@ -778,6 +778,8 @@ class CliApplication:
                             retval.append(str(addr.ip))
                         elif not self.show_networks and self.show_cidr:
                             retval.append(addr.as_cidr_addr)
+                        # one line of output per matching word
+                        break
         return retval
 
     @logger.catch(reraise=True)
